@@ -54,6 +54,8 @@ func init() {
 				Edits: []Edit{{File: "driver/netconf/rpc.go", Old: "\t\tserialized.rawXML,\n\t\tserialized.framedXML,\n\t\td.Transport.GetHost(),", New: "\t\tserialized.rawXML,\n\t\tserialized.rawXML,\n\t\td.Transport.GetHost(),"}}},
 			{ID: "C03-selfclose-guard-weakened", Desc: "self-closing rewrite skips only matches whose attribute part ends in a slash", Rule: "C03/selfclose-guard",
 				Edits: []Edit{{File: "driver/netconf/message.go", Old: "\t\tclosingTag := sm[3]\n\n\t\tif !bytes.Equal(openingTag, closingTag) {", New: "\t\tif bytes.HasSuffix(openingTagContents, []byte(\"/\")) {"}}},
+			{ID: "C03-selfclose-drops-prefix", Desc: "empty-element pattern lets a namespace prefix match outside group 1", Rule: "C03/selfclose-guard",
+				Edits: []Edit{{File: "driver/netconf/driver.go", Old: "emptyTagPattern = `<([^>/]+?)(\\s+[^>]+?)?>\\s*</([\\w-]+)>`", New: "emptyTagPattern = `<(?:[\\w-]+:)?([^>/]+?)(\\s+[^>]+?)?>\\s*</(?:[\\w-]+:)?([\\w-]+)>`"}}},
 			{ID: "C03-header-when-excluded", Desc: "XML declaration always prepended", Rule: "C03/framing",
 				Edits: []Edit{{File: "driver/netconf/message.go", Old: "\tif !excludeHeader {\n\t\tmsg = append([]byte(xmlHeader), msg...)\n\t}", New: "\tmsg = append([]byte(xmlHeader), msg...)\n\t_ = excludeHeader"}}},
 		},
@@ -65,7 +67,7 @@ func runC03(c *Ctx, r *Report) {
 	checkErrorClasses(c, r, "C03")
 	r.Rule("C03/framing", "serialize: payload, raw copy, 1.0 delimiter and 1.1 chunk framing with the byte length of the value that follows, on all 8 paths", 8)
 	r.Rule("C03/write-sequence", "sendRPC writes framed bytes + return, one more return exactly under 1.1, then waits; the response reports the same serialisation", 4)
-	r.Rule("C03/selfclose-guard", "ForceSelfClosingTags rewrites a pattern match only when its opening tag name equals its closing tag name (the pattern alone has no back-reference)", 1)
+	r.Rule("C03/selfclose-guard", "ForceSelfClosingTags rewrites a pattern match only when its opening tag name equals its closing tag name (the pattern alone has no back-reference); group 1 of the pattern starts right behind the opening '<'", 2)
 	r.Rule("C03/op-options-applied", "netconf.NewOperation applies the full per-operation option list (filter, defaults, commit settings) in order", 1)
 	r.Rule("C03/element-wiring", "RFC element names in struct tags; builders wire each parameter to its element; public methods pass arguments in position", 40)
 	r.Rule("C03/options", "NETCONF operation options store the setting they name", 14)
@@ -73,6 +75,7 @@ func runC03(c *Ctx, r *Report) {
 	checkSerializeFraming(c, r)
 	checkSendRPCSequence(c, r)
 	checkSelfClosingGuard(c, r)
+	checkEmptyTagPatternPrefix(c, r)
 	checkOperationApplyLoop(c, r, "C03/op-options-applied", "driver/netconf")
 	checkElementTags(c, r)
 	checkBuilderWiring(c, r)
